@@ -30,12 +30,15 @@ type monC02 struct {
 	minted  *big.Int            // minted in this block (BeginBlock)
 	burned  map[string]*big.Int
 	blockSt map[string]*big.Int
+	// ids on the chain's accepted queue at the last block boundary
+	acceptedBefore []uint64
 }
 
 func (m *monC02) Name() string { return "C02" }
 
 func (m *monC02) Init(w *World) {
 	m.supply = supplyMap(w, w.DCtx()) // after InitChain the genesis state lives in the deliver state
+	m.acceptedBefore = w.Ref.App.EnterpriseKeeper.GetAllAcceptedPurchaseOrders(w.DCtx())
 	// importing the genesis document creates no coins: the supply the chain starts with is the
 	// supply its bank section declares
 	var gs map[string]json.RawMessage
@@ -137,6 +140,19 @@ func (m *monC02) AfterBegin(w *World, resp abci.ResponseBeginBlock) {
 	if strings.Join(gotEach, ",") != strings.Join(wantEach, ",") {
 		w.Violate("C02", "C02/mint-not-matching-completed-orders", "BeginBlock minted %v, orders completing in this block %v", gotEach, wantEach)
 	}
+	// the chain's own books: what was minted is what the orders that left the accepted queue as
+	// completed amount to (an order that ends up in any other status must not have minted)
+	var chainEach []string
+	dctx := w.DCtx()
+	for _, id := range m.acceptedBefore {
+		if po, ok := w.Ref.App.EnterpriseKeeper.GetPurchaseOrder(dctx, id); ok && po.Status == enttypes.StatusCompleted {
+			chainEach = append(chainEach, po.Amount.String())
+		}
+	}
+	sort.Strings(chainEach)
+	if strings.Join(gotEach, ",") != strings.Join(chainEach, ",") {
+		w.Violate("C02", "C02/mint-not-matching-orders-the-chain-shows-completed", "BeginBlock minted %v; of the orders that were accepted (%v) the chain now shows as completed %v", gotEach, m.acceptedBefore, chainEach)
+	}
 	burns := m.checkBurns(w, resp.Events, "BeginBlock")
 	d := m.diffSupply(w, w.DCtx())
 	exp := map[string]*big.Int{}
@@ -219,6 +235,7 @@ func (m *monC02) AfterEnd(w *World, resp abci.ResponseEndBlock) {
 
 func (m *monC02) AfterBlock(w *World) {
 	ctx := w.CCtx()
+	m.acceptedBefore = w.Ref.App.EnterpriseKeeper.GetAllAcceptedPurchaseOrders(ctx)
 	tot := balanceSheet(w, ctx).totals()
 	sup := supplyMap(w, ctx)
 	for _, den := range sortedDenoms(sup) {
